@@ -167,7 +167,8 @@ def exec_for(ex, s: ast.For, st: State) -> list[State]:
 
     def lctx(stx: State, i, done):
         return LCtx(ex.h0, stx.h, ex.args, ex.ghosts, h_entry, i, done, cont, stx.locals, outer,
-                    extra={'kind': kind, 'ret_name': ret_name(ex)})
+                    extra={'kind': kind, 'ret_name': ret_name(ex),
+                           'assigned': sorted(_assigned_names(s.body) - {n.id for n in ast.walk(s.target) if isinstance(n, ast.Name)})})
 
     def auto_inv(stx: State, i):
         out = [('index', z3.And(0 <= i, i <= length(stx.h)))]
